@@ -15,7 +15,7 @@ theorem quiet_not_wSt {p : Pc} (h : quiet p = true) : p ≠ .wSt ∧ p ≠ .eCas
 section
 attribute [local simp] quiet_retWith quiet_retPending quiet_tsCall quiet_enterLoop
   quiet_parkSeqS quiet_parkSeqR quiet_deqCall quiet_flushCall quiet_tsErr quiet_tsOk quiet_chkClosed quiet_chkOpen
-  quiet_nrDone quiet_finDone quiet_deqDone quiet_scDone quiet_flushDone quiet_probeDone quiet_pollEntry
+  quiet_nrDone quiet_finDoneS quiet_finDoneR quiet_deqDone quiet_scDone quiet_flushDone quiet_probeDone quiet_pollEntry
   quiet_pubDone quiet_callTh
 
 set_option maxHeartbeats 4000000 in
